@@ -13,7 +13,7 @@ Driver ops of the NATS server shutdown model (C20).
   remembered in `unconf` until the matching `D` arrives.
   Output `ok end=<observable>` or `rejected at <k>:<event>`.
 
-`nsrun <w> <q> <stopPos> <gap> <delay> <jitter> <pub2> <fault> <durs>` (`nsrun1` = the same, executed in-process by the harness)  the model's prediction for a configuration: a fair
+`nsrun <w> <q> <stopPos> <gap> <delay> <jitter> <pub2> <fault> <opts> <durs>` (`nsrun1` = the same, executed in-process by the harness)  the model's prediction for a configuration: a fair
   schedule of the model (first `stopPos` requests arrive, Stop is called, the remaining ones are
   offered while the system runs) is executed to the end.
 -/
@@ -236,13 +236,29 @@ def faultOk (f : String) : Bool :=
   | [k, d] => (k ∈ ['c', 'b', 's']) && ('0' ≤ d && d ≤ '6')
   | _ => false
 
+/-- Builder options: the high watermark in ms or `d` (default), then `g` (queue group) and/or `h` (event
+handlers). None of them exists in the model: no option changes the shutdown protocol. -/
+def optsOk (o : String) : Bool :=
+  let cs := o.toList
+  let (base, flags) :=
+    if cs.reverse.take 2 == ['h', 'g'] then (cs.dropLast.dropLast, "gh")
+    else match cs.reverse with
+      | 'g' :: _ => (cs.dropLast, "g")
+      | 'h' :: _ => (cs.dropLast, "h")
+      | _ => (cs, "")
+  let _ := flags
+  base == ['d'] ||
+    (match (String.ofList base).toNat? with
+     | some n => n ≤ 600000 && (base.length == 1 || base.head? != some '0') && base.all Char.isDigit
+     | none => false)
+
 def stepNsrun (args : List String) : String :=
   match args with
-  | [w, q, sp, gap, delay, jit, pub2, fault, durs] =>
+  | [w, q, sp, gap, delay, jit, pub2, fault, opts, durs] =>
     match w.toNat?, q.toNat?, sp.toNat?, gap.toNat?, delay.toNat?, jit.toNat?, pub2.toNat? with
     | some w, some q, some sp, some gap, some delay, some jit, some pub2 =>
       let ds := (durs.splitOn ",").map durTok
-      if !faultOk fault then "bad-args" else
+      if !faultOk fault || !optsOk opts then "bad-args" else
       if w < 1 ∨ w > 64 ∨ q > 1024 ∨ gap > 100000 ∨ delay > 100000 ∨ jit > 100000 ∨ pub2 > 500 ∨ ds.isEmpty ∨ ds.length > 400
           ∨ ds.any (fun d => match d with | some d => d > 20000 | none => true) then "bad-args"
       else predictRun w q sp ds.length
